@@ -9,8 +9,10 @@ import time
 
 VERIF = os.path.dirname(os.path.dirname(os.path.abspath(__file__)))
 REPO = os.environ.get("AW_REPO", "/repo")
-OUT = os.path.join(VERIF, "out")
-EVIDENCE = os.path.join(VERIF, "evidence")
+# VERIF_OUT_DIR / VERIF_EVIDENCE_DIR redirect replay and evidence files (used when a check is pointed at a
+# scratch tree with AW_REPO, e.g. to evaluate a seeded change, so that /verif/evidence is not overwritten)
+OUT = os.environ.get("VERIF_OUT_DIR", os.path.join(VERIF, "out"))
+EVIDENCE = os.environ.get("VERIF_EVIDENCE_DIR", os.path.join(VERIF, "evidence"))
 FINDINGS = os.path.join(VERIF, "known_findings.json")
 
 _scratch = None
